@@ -143,6 +143,27 @@ func callNative(t *Thread, c *Closure, args []Value, pos token.Pos) Value {
 			return Iface{t: rtypeType, v: &RType{u.Elem()}}
 		}
 		t.goPanicf(pos, "reflect: Elem of invalid type "+rt.t.String(), nil)
+	case "rtype.AssignableTo", "rtype.ConvertibleTo", "rtype.Implements":
+		rt := c.recv.(*RType)
+		o, ok := args[0].(Iface)
+		if !ok || o.t == nil {
+			t.goPanicf(pos, "reflect: nil type passed to Type."+c.builtin[6:], nil)
+		}
+		ot := o.v.(*RType).t
+		switch c.builtin {
+		case "rtype.AssignableTo":
+			return e.ts.Bool(types.AssignableTo(rt.t, ot))
+		case "rtype.ConvertibleTo":
+			return e.ts.Bool(types.ConvertibleTo(rt.t, ot))
+		default:
+			it, isI := ot.Underlying().(*types.Interface)
+			if !isI {
+				t.goPanicf(pos, "reflect: non-interface type passed to Type.Implements", nil)
+			}
+			return e.ts.Bool(types.Implements(rt.t, it))
+		}
+	case "rtype.Comparable":
+		return e.ts.Bool(types.Comparable(c.recv.(*RType).t))
 	case "rtype.Kind":
 		return e.ts.BV(64, uint64(kindOf(c.recv.(*RType).t)))
 	case "rtype.String", "rtype.Name":
